@@ -56,6 +56,7 @@ type DB struct {
 	Preds  map[string]*Pred
 	Order  []string
 	Closed []string // interface types resolved by case split over the implementing types of the module
+	Initial     []string // package variables with a known, never changing initial value
 	Transparent []string
 	UsedBy []string // package usedby P...: the only packages whose verification uses these contracts
 	Assume []string // raw text of every assume / trusted line (mechanical scan for the evidence)
@@ -69,7 +70,7 @@ var clauseKW = map[string]bool{
 	"ghost": true, "callee_may_panic": true, "opaque_effects": true, "never_errors": true,
 	"before": true, "toplevel": true,
 }
-var topKW = map[string]bool{"closed": true, "func": true, "pred": true, "package": true, "axiom": true, "lemma": true, "functype": true, "writers": true}
+var topKW = map[string]bool{"closed": true, "initial": true, "func": true, "pred": true, "package": true, "axiom": true, "lemma": true, "functype": true, "writers": true}
 
 // Load reads every zz_verif_*.go file in dir.
 func Load(dir, pkg string) (*DB, error) {
@@ -132,6 +133,14 @@ func (db *DB) loadFile(path string) error {
 		rest := strings.TrimSpace(strings.TrimPrefix(it.text, kw))
 		fail := func(err error) error { return fmt.Errorf("%s:%d: %v", path, it.line, err) }
 		switch kw {
+		case "initial":
+			// initial G, H: package variables read as the constants their initialisers store
+			cur = nil
+			for _, n := range strings.Split(rest, ",") {
+				if n = strings.TrimSpace(n); n != "" {
+					db.Initial = append(db.Initial, n)
+				}
+			}
 		case "closed":
 			// closed I, J: every value of the interface types I, J of this package has one of the
 			// types of this module that implement it (method calls are resolved by case split)
